@@ -4,6 +4,7 @@ and ALL event sequences `ops`; the clause predicates are the ones in Spec.lean (
 history that precedes it), i.e. exactly the oracle applied to the real implementation by the harness.
 -/
 import TornadoModel.C16.Inv2Run
+import TornadoModel.C16.Settle
 namespace TornadoModel.C16
 open Spec
 
@@ -101,6 +102,29 @@ theorem waiting_ping_off (cfg : Cfg) (ops : List Op) (h : (run cfg ops).waiting 
     (run cfg ops).ping = .off :=
   (inv_run cfg ops).1.waitingPing h
 
+/-- while our close has been sent and the transport is still up, the closing timeout is armed — after ANY event
+sequence, in particular after a second protocol-level `close()` (ping timeout, then the application's close) -/
+theorem close_pending_timer_armed (cfg : Cfg) (ops : List Op)
+    (hc : (run cfg ops).log.any isClose = true) (ho : (run cfg ops).sopen = true) :
+    (run cfg ops).waiting = true :=
+  w_run cfg ops ((inv_run cfg ops).1.closeSt hc) ho
+
+/-- at quiescence (close timer not pending, no on_message in flight) a run whose close frame is on the wire has
+torn the transport down and delivered the close notification: the oracle's `settledAtQuiescence` -/
+theorem settled_at_quiescence (cfg : Cfg) (ops : List Op)
+    (hw : (run cfg ops).waiting = false) (hb : (run cfg ops).blocked = false) :
+    settledAtQuiescence (run cfg ops).log = true := by
+  unfold settledAtQuiescence
+  cases hc : (run cfg ops).log.any isClose
+  · rfl
+  · have hs : (run cfg ops).sopen = false := by
+      cases ho : (run cfg ops).sopen
+      · rfl
+      · have := close_pending_timer_armed cfg ops hc ho
+        rw [hw] at this
+        cases this
+    simp [(closed_iff_logged cfg ops).1 hs, down_implies_notified cfg ops hb hs]
+
 def srv : Cfg := { side := .server, pingOn := false, timeoutPos := false, gap := false }
 def cliPing : Cfg := { side := .client, pingOn := true, timeoutPos := true, gap := true }
 
@@ -180,5 +204,16 @@ example : trace srv [.recvClose [3, 234, 255, 254] false, .probe] =
 /-- the transport goes down first: the notification carries nothing -/
 example : trace srv [.peerDisconnect, .recvClose [3, 232] true] =
     [.op .peerDisconnect, .streamClosed, .notify none none, .op (.recvClose [3, 232] true)] := by decide
+
+/-- the double close (ping timeout closes the protocol, then the application closes the same connection, the peer
+stays silent): the close timer survives the second `close()`, the next timer tears the connection down and the
+notification fires once; the hypotheses of `settled_at_quiescence` hold at the end -/
+example : trace cliPing [.timer, .timer, .localClose (some 1001) none, .timer] =
+    [.op .timer, .pingFrame, .op .timer, .closeFrame ([3, 232] ++ pingTimedOut), .op (.localClose (some 1001) none),
+     .op .timer, .closeDue, .streamClosed, .notify none none] := by decide
+example : (run cliPing [.timer, .timer, .localClose (some 1001) none]).waiting = true := by decide
+example : (run cliPing [.timer, .timer, .localClose (some 1001) none, .timer]).waiting = false ∧
+    (run cliPing [.timer, .timer, .localClose (some 1001) none, .timer]).blocked = false ∧
+    (run cliPing [.timer, .timer, .localClose (some 1001) none, .timer]).log.any isClose = true := by decide
 
 end TornadoModel.C16
